@@ -259,15 +259,22 @@ def check_implicit(out, comp, ins, outs, rng, eps, tag, rtol=1e-6):
                 if mode == "fwd":
                     d_out, d_res = {s: np.zeros_like(b)}, {s: b.copy()}
                     c.solve_linear(d_out, d_res, "fwd")
-                    y = np.ravel(d_out[s])
+                    y = np.ravel(d_out[s]).copy()
                     r = A @ y - b
                 else:
                     d_out, d_res = {s: b.copy()}, {s: np.zeros_like(b)}
                     c.solve_linear(d_out, d_res, "rev")
-                    y = np.ravel(d_res[s])
+                    y = np.ravel(d_res[s]).copy()
                     r = A.T @ y - b
                 sc = max(float(np.max(np.abs(A))) * float(np.max(np.abs(y))), 1e-300)
                 out.le("%s:solve_linear/%s" % (cname, mode), float(np.max(np.abs(r))), 1e-8 * sc, "[%s] residual of the linear solve" % tag)
+                n += 1
+                # iterative linear solvers (LinearBlockGS, Krylov preconditioners) call solve_linear repeatedly on the SAME
+                # vectors: the result vector must be overwritten, not accumulated into
+                c.solve_linear(d_out, d_res, mode)
+                y2 = np.ravel(d_out[s] if mode == "fwd" else d_res[s])
+                out.close("%s:solve_linear_repeatable/%s" % (cname, mode), y2, y, rtol=1e-12,
+                          msg="[%s] second call on the same vectors" % tag)
                 n += 1
             # totals identity du/dx = -A^-1 dR/dx against the framework's totals
             wrt = [k for k in solo.names if x[k].size > 0]
